@@ -117,12 +117,23 @@ func (eng *Engine) Verify(fn *ssa.Function, spec *FuncSpec, tags map[string]bool
 	e.preHeap = h0
 	if spec != nil && spec.Handler != "" {
 		// a route handler starts a request: the per-request ghost context is empty (zero values)
+		var hp []string
 		for path := range eng.ld.pkgSpecs {
+			hp = append(hp, path)
+		}
+		sort.Strings(hp)
+		for _, path := range hp {
 			sp := eng.ld.ssaPkg(path)
 			if sp == nil {
 				continue
 			}
-			for name, m := range sp.Members {
+			var mn []string
+			for name := range sp.Members {
+				mn = append(mn, name)
+			}
+			sort.Strings(mn)
+			for _, name := range mn {
+				m := sp.Members[name]
 				g, ok := m.(*ssa.Global)
 				if !ok || !eng.ghostVars["G|"+path+"."+name] {
 					continue
@@ -460,8 +471,42 @@ func (s *Script) slice(prefix int, seed string) (decls, lines []string) {
 			}
 		}
 	}
+	// datatype declarations: only those mentioned (transitively) by what is kept
+	var kept []string
 	for i, d := range s.decls {
-		if s.declName[i] == "" || need[s.declName[i]] {
+		if s.declName[i] != "" && need[s.declName[i]] {
+			kept = append(kept, d)
+		}
+	}
+	for i := 0; i < prefix; i++ {
+		if inc[i] {
+			kept = append(kept, s.lines[i])
+		}
+	}
+	text := strings.Join(kept, "\n") + "\n" + seed
+	dtNeeded := map[int]bool{}
+	for changed := true; changed; {
+		changed = false
+		for i, d := range s.decls {
+			if dtNeeded[i] || !strings.HasPrefix(d, "(declare-datatypes ((") {
+				continue
+			}
+			name := d[len("(declare-datatypes (("):]
+			name = name[:strings.IndexByte(name, ' ')]
+			if strings.Contains(text, name) {
+				dtNeeded[i] = true
+				text += "\n" + d
+				changed = true
+			}
+		}
+	}
+	for i, d := range s.decls {
+		switch {
+		case strings.HasPrefix(d, "(declare-datatypes (("):
+			if dtNeeded[i] {
+				decls = append(decls, d)
+			}
+		case s.declName[i] == "" || need[s.declName[i]]:
 			decls = append(decls, d)
 		}
 	}
